@@ -42,7 +42,7 @@ def bounds(tier):
 
 
 # ------------------------------------------------------------------ targets
-PIDS = [ABSENT, 'own', 'own2', 'other', 'ownchild', 'otherchild', 'real', 'dead', 'str-own']
+PIDS = [ABSENT, 'own', 'own2', 'other', 'ownchild', 'otherchild', 'real', 'dead', 'str-own', 'zero', 'zero-str', 'false']
 CHILDPIDS = [ABSENT, 'ownchild', 'owngrand', 'otherchild', 'own', 'dead', 'child-of-own2']
 FLAGS = [ABSENT, False, True]
 
@@ -75,7 +75,7 @@ class TWorld(object):
         own = sorted(w.watcher('a').processes)
         other = sorted(w.watcher('b').processes)
         self.ids = {'own': own[0], 'own2': own[1], 'other': other[0], 'ownchild': own[0] + 1, 'owngrand': own[0] + 2,
-                    'otherchild': other[0] + 1, 'child-of-own2': own[1] + 1, 'real': 1, 'dead': PID_BASE + 999,
+                    'otherchild': other[0] + 1, 'child-of-own2': own[1] + 1, 'real': 1, 'dead': PID_BASE + 999, 'zero': 0, 'zero-str': '0', 'false': False,
                     'str-own': str(own[0])}
         self.own, self.other = own, other
         self.state = state
@@ -113,6 +113,8 @@ def reference_targets(tw, case, watcher):
     active = [p for p in mine if k.procs[p].state == RUNNING]
     pid = case['pid']
     val = tw.ids.get(pid)
+    if val is False:
+        val = 0
     if isinstance(val, str) and val.isdigit():
         val = int(val)              # a pid given as a string of digits is that pid
     if case['cmd'] == 'signal':
